@@ -9,7 +9,7 @@ RULE = ('(a) allocator: random alloc/free histories (sizes 1-64, 1-150 steps qui
         'frees) on the real sim.Heap: after EVERY step the whole state (return value, chunks, released list, current_size, max_size) must equal the '
         'Lean list model, and an abstract set-of-live-intervals oracle checks overlap / tiling / coalescing / high-water mark on the real tables; '
         '(b) map: random circuits x capacity vectors (uniform, per line, below c_caps_min) x {c_reuse} x {strip_forks}: exact correspondence of the Lean '
-        'SimOps model with the real c_locs/c_caps/c_len and the Lean certificate checker MapIn.check on the REAL arrays; oracle: results at ports are '
+        'SimOps model with the real c_locs/c_caps/c_len, the Lean certificate checker MapIn.check on the REAL arrays and the hypotheses of simops_map_accepted (wfB, orderOKB, forksOKB, readsDrivenB: driver simopscert) on the real circuit and order; oracle: results at ports are '
         'independent of c_reuse for LogicSim (m=2,8) and WaveSim. distinct = history / (circuit, options, caps) descriptors')
 
 
